@@ -193,6 +193,20 @@ func opsFor(round, k int, jt, pt, tt reflect.Type) []c09Op {
 			c, _ := stdjson.Marshal(out.Interface())
 			return fmt.Sprintf("%s|%v", c, err)
 		}},
+		{"proto.Unmarshal(map entries that leave key or value out, after failed decodes; result held)", func() string {
+			// pooled map-entry scratch: what a failed decode (here or on another goroutine) left in it must not show
+			// in an entry that legally leaves its key or its value off the wire
+			type mm struct{ M map[string]int32 }
+			var b1, g1, g2 mm
+			proto.Unmarshal([]byte{0x0a, 0x08, 0x0a, 0x03, 's', 't', 'a', 0x10, byte(k%100 + 1), 0x1f}, &b1) // value decoded, then an invalid wire type
+			e1 := proto.Unmarshal([]byte{0x0a, 0x02, 0x10, 0x05}, &g1)                                     // {"": 5}: the key is left out
+			proto.Unmarshal([]byte{0x0a, 0x08, 0x0a, 0x03, 's', 't', 'a', 0x10, byte(k%100 + 1), 0x1f}, &b1)
+			e2 := proto.Unmarshal([]byte{0x0a, 0x03, 0x0a, 0x01, 'k'}, &g2) // {"k": 0}: the value is left out
+			if e1 != nil || e2 != nil || len(g1.M) != 1 || g1.M[""] != 5 || len(g2.M) != 1 || g2.M["k"] != 0 {
+				return fmt.Sprintf("%v %v %v %v", g1.M, e1, g2.M, e2)
+			}
+			return "stable"
+		}},
 		{"proto.TypeOf", func() string { return proto.TypeOf(pt).String() }},
 		{"thrift.Marshal", func() string {
 			b, err := thrift.Marshal(&thrift.CompactProtocol{}, tv.Interface())
